@@ -159,3 +159,42 @@ Print Assumptions C15_aes_result_history_independent.
 Example C15_aes_mode_safe_satisfiable : aes_mode_safe OnEncrypted = true /\ aes_mode_safe Eager = true.
 Proof. split; reflexivity. Qed.
 Print Assumptions C15_aes_mode_safe_satisfiable.
+
+(* the general form: whatever guard _open_pdf_reader uses, the result is independent of the history
+   (and of the initial state of the provider) as soon as the guard is COMPLETE: every document
+   that will need AES is either caught at open or detected by the guard ... *)
+Theorem C15_aes_guard_complete_independent :
+  forall (doc : Type) (needs_aes at_open detect : doc -> bool),
+    (forall d, needs_aes d = true -> at_open d || detect d = true) ->
+    forall (history : list doc) (p0 : bool) (d : doc),
+      fst (g_extract doc needs_aes at_open detect (g_docs doc needs_aes at_open detect p0 history) d)
+      = fst (g_extract doc needs_aes at_open detect p0 d).
+Proof.
+  intros doc needs_aes at_open detect H history p0 d. unfold g_extract, g_open. cbn [fst].
+  destruct (needs_aes d) eqn:N; [|reflexivity].
+  rewrite <- !orb_assoc. rewrite (H d N). rewrite !orb_true_r. reflexivity.
+Qed.
+Print Assumptions C15_aes_guard_complete_independent.
+
+(* ... and it is not, for any guard that misses a document which needs AES later, as soon as some
+   other document installs the fallback: [other; d] succeeds where [d] alone fails *)
+Theorem C15_aes_guard_incomplete_refuted :
+  forall (doc : Type) (needs_aes at_open detect : doc -> bool) (d other : doc),
+    needs_aes d = true -> at_open d = false -> detect d = false ->
+    at_open other || detect other = true ->
+    fst (g_extract doc needs_aes at_open detect (g_docs doc needs_aes at_open detect false [other]) d)
+    <> fst (g_extract doc needs_aes at_open detect false d).
+Proof.
+  intros doc needs_aes at_open detect d other N A D O. unfold g_docs, g_extract, g_open. cbn [fold_left fst snd].
+  rewrite N, A, D. cbn [negb orb]. rewrite orb_false_r.
+  replace (false || at_open other || detect other) with (at_open other || detect other) by reflexivity.
+  rewrite O. discriminate.
+Qed.
+Print Assumptions C15_aes_guard_incomplete_refuted.
+
+Example C15_aes_guard_hypotheses_satisfiable :
+  (forall d : bool, d = true -> false || (fun _ : bool => true) d = true) /\
+  (exists (needs detect : bool -> bool) (d other : bool),
+      needs d = true /\ detect d = false /\ detect other = true).
+Proof. split; [reflexivity|]. exists (fun _ => true), (fun b => b), false, true. auto. Qed.
+Print Assumptions C15_aes_guard_hypotheses_satisfiable.
